@@ -43,6 +43,8 @@ leaf server_future    ca1 $NEW_FROM $NEW_TO "$SRV
 subjectAltName=DNS:test.com" test.com
 leaf server_ca2       ca2 $OK_FROM  $OK_TO  "$SRV
 subjectAltName=DNS:test.com" test.com
+leaf server_ip        ca1 $OK_FROM  $OK_TO  "$SRV
+subjectAltName=IP:127.0.0.1,IP:::1" device
 # clients
 leaf client_operator  ca1 $OK_FROM  $OK_TO  "$(ROLE operator)" client
 leaf client_viewer    ca1 $OK_FROM  $OK_TO  "$(ROLE viewer)" client
